@@ -46,7 +46,9 @@ func vParseStoreCfg(s string) vStoreCfg {
 }
 
 var vStoreDocs = []vDoc{
-	{Vec: []float32{1, 0}, Text: "alpha", Meta: map[string]interface{}{"s": "x"}},
+	// document 0 alone carries a numeric field: once it is removed (or re-added as another
+	// document) the field has no holder left when the next segment is written
+	{Vec: []float32{1, 0}, Text: "alpha", Meta: map[string]interface{}{"s": "x", "n": 5}},
 	{Vec: []float32{0, 1}, Text: "beta", Meta: map[string]interface{}{"s": "y"}},
 	{Vec: []float32{3, 4}, Text: "gamma alpha", Meta: map[string]interface{}{"s": "x"}},
 }
